@@ -21,7 +21,8 @@ PROBES = {"C13": ["stretch_inside_training", "stretch_overlapping_end", "stretch
                   "fit_transform_checked", "index_preserving_checked", "shifted_twin_checked",
                   "nonzero_origin", "pickle_midway", "pipeline_as_transformer", "seasonal_fit_checked",
                   "reconfigured_and_refitted", "strided_stretch", "refitted_on_other_stretch",
-                  "frozen_update_checked"]}
+                  "frozen_update_checked", "period_changed_and_refitted",
+                  "fit_transform_on_fitted_instance", "unpaired_calls_checked"]}
 FAULT_KINDS = {"C13": ["index_shift", "pickle_roundtrip", "update_interleaved", "overlap_batch"]}
 RULE = {"C13": (
     "seeded transformer configuration x series x history of fit, round trips on stretches that "
@@ -82,6 +83,19 @@ def _base(spec):
     return spec
 
 
+def _base0(spec):
+    """innermost transformer spec whatever the passthrough flags say"""
+    while spec["kind"] == "optional":
+        spec = spec["transformer"]
+    return spec
+
+
+def _with_base(spec, **kw):
+    if spec["kind"] == "optional":
+        return dict(spec, transformer=_with_base(spec["transformer"], **kw))
+    return dict(spec, **kw)
+
+
 def _needs_pos(spec):
     if spec["kind"] == "ttf_t":
         return any(C.needs_positive(t) for t in spec["transformers"])
@@ -127,12 +141,23 @@ def generate(prop, rng, tier):
             ops.append({"op": "update", "take": take, "overlap": rng.choice([0, 0, 1, 2]),
                         "up": rng.random() < 0.5})
             total += take
-        elif r < 0.92:
+        elif r < 0.88:
             ops.append({"op": "fit_transform"})
-        elif r < 0.96 and spec["kind"] == "optional":
-            ops.append({"op": "reconfigure"})
-        elif r < 0.97:
-            ops.append({"op": "refit", "start": rng.randint(1, 7)})
+        elif r < 0.92 and (spec["kind"] == "optional" or
+                           spec["kind"] in ("deseason", "cdeseason")):
+            sps = [k for k in (2, 3, 4, 5, 7) if 2 * k + 3 <= n0 and k != _base0(spec).get("sp")]
+            if _base0(spec)["kind"] in ("deseason", "cdeseason") and sps and \
+                    (spec["kind"] != "optional" or rng.random() < 0.6):
+                ops.append({"op": "reconfigure", "what": "sp", "sp": rng.choice(sps)})
+            elif spec["kind"] == "optional":
+                ops.append({"op": "reconfigure", "what": "passthrough"})
+        elif r < 0.94:
+            ops.append({"op": "refit", "start": rng.randint(1, 7),
+                        "via": rng.choice(["fit", "fit_transform"])})
+        elif r < 0.98 and minstretch == 1:
+            ops.append({"op": "unpaired", "where": rng.choice(["inside", "overlap", "after"]),
+                        "off": rng.randint(0, 9), "len": rng.randint(2, 8),
+                        "stride": rng.choice([2, 3]), "first": rng.choice(["transform", "inverse"])})
         else:
             ops.append({"op": "pickle"})
     return {"spec": spec, "ops": ops,
@@ -205,6 +230,27 @@ def execute(prop, scen):
                 return None
         return outs
 
+    def after_fit():
+        """remember the fitted seasonal components of the primary and check them against the
+        classical decomposition of the training series"""
+        nonlocal seasonal_ref
+        seasonal_ref = None
+        if base["kind"] in ("deseason", "cdeseason") and kind != "ttf_t":
+            inner = t.transformer_ if kind == "optional" else t
+            seasonal_ref = np.asarray(inner.seasonal_, dtype=float).copy()
+            # the fitted components themselves: the classical decomposition of the
+            # training series, component j belonging to time points t0 + j (mod sp)
+            indep = _independent_seasonal(y.iloc[:n_fit], base, inner)
+            if indep is not None:
+                res.probe("seasonal_fit_checked")
+                if not np.allclose(seasonal_ref, indep, rtol=1e-7, atol=1e-9):
+                    v("seasonal_components", "fitted seasonal components %s differ from the "
+                      "classical decomposition of the training series %s (n=%d, sp=%d)" % (
+                          np.round(seasonal_ref, 4).tolist(), np.round(indep, 4).tolist(),
+                          n_fit, base.get("sp", 1)))
+                    return False
+        return True
+
     sc = sched.Scheduler("fifo", 0)
     with sched.scenario_schedule(sc):
         for i, op in enumerate(scen["ops"]):
@@ -225,20 +271,8 @@ def execute(prop, scen):
                 if both("fit", lambda tr, yy: tr.fit(yy.iloc[:n_fit])) is None:
                     break
                 fitted, pos, updates_since_fit = True, n_fit, 0
-                if base["kind"] in ("deseason", "cdeseason") and kind != "ttf_t":
-                    inner = t.transformer_ if kind == "optional" else t
-                    seasonal_ref = np.asarray(inner.seasonal_, dtype=float).copy()
-                    # the fitted components themselves: the classical decomposition of the
-                    # training series, component j belonging to time points t0 + j (mod sp)
-                    indep = _independent_seasonal(y.iloc[:n_fit], base, inner)
-                    if indep is not None:
-                        res.probe("seasonal_fit_checked")
-                        if not np.allclose(seasonal_ref, indep, rtol=1e-7, atol=1e-9):
-                            v("seasonal_components", "fitted seasonal components %s differ from the "
-                              "classical decomposition of the training series %s (n=%d, sp=%d)" % (
-                                  np.round(seasonal_ref, 4).tolist(), np.round(indep, 4).tolist(),
-                                  n_fit, base.get("sp", 1)))
-                            break
+                if not after_fit():
+                    break
                 digest.update(b"fit")
             elif o == "update":
                 if not hasattr(t, "update"):
@@ -282,9 +316,25 @@ def execute(prop, scen):
                 st = op["start"]
                 if st + n_fit > len(y) - 4:
                     continue
-                if both("fit", lambda tr, yy: tr.fit(yy.iloc[st:st + n_fit])) is None:
-                    break
-                fresh = build(spec).fit(y.iloc[st:st + n_fit])
+                via = op.get("via", "fit")
+                if via == "fit_transform":
+                    # fit_transform on an already fitted object == fit(z).transform(z) of a new one
+                    outs = both("fit_transform", lambda tr, yy: tr.fit_transform(
+                        yy.iloc[st:st + n_fit].copy()))
+                    if outs is None:
+                        break
+                    fresh = build(spec).fit(y.iloc[st:st + n_fit])
+                    res.probe("fit_transform_on_fitted_instance")
+                    exp_ = fresh.transform(y.iloc[st:st + n_fit].copy())
+                    if not _same(outs[0], exp_):
+                        v("stale_state_after_refit", "fit_transform on an already fitted transformer, "
+                          "on a stretch starting %d points later, gives %s; fit(z).transform(z) of a "
+                          "new one gives %s" % (st, C.fmt(outs[0]), C.fmt(exp_)), via="fit_transform")
+                        break
+                else:
+                    if both("fit", lambda tr, yy: tr.fit(yy.iloc[st:st + n_fit])) is None:
+                        break
+                    fresh = build(spec).fit(y.iloc[st:st + n_fit])
                 zz = y.iloc[st + 1: st + 1 + max(4, min(10, n_fit - 2))]
                 try:
                     a_, b_ = t.transform(zz.copy()), fresh.transform(zz.copy())
@@ -302,18 +352,32 @@ def execute(prop, scen):
                 if both("fit", lambda tr, yy: tr.fit(yy.iloc[:n_fit])) is None:
                     break
                 fitted, pos, updates_since_fit = True, n_fit, 0
+                if not after_fit():
+                    break
             elif o == "reconfigure":
                 # same object, another configuration, fitted again: must behave like a fresh
                 # object with that configuration
-                if kind != "optional":
-                    continue
-                new_flag = not spec.get("passthrough", False)
-                spec = dict(spec, passthrough=new_flag)
+                what = op.get("what", "passthrough")
+                if what == "passthrough":
+                    if kind != "optional":
+                        continue
+                    new_flag = not spec.get("passthrough", False)
+                    spec = dict(spec, passthrough=new_flag)
+                    new_params = {"passthrough": new_flag}
+                else:
+                    if _base0(spec)["kind"] not in ("deseason", "cdeseason") or kind == "ttf_t" \
+                            or 2 * op["sp"] + 3 > n_fit or _base0(spec).get("sp") == op["sp"]:
+                        continue
+                    spec = _with_base(spec, sp=op["sp"])
+                    path, sp_ = "sp", spec
+                    while sp_["kind"] == "optional":
+                        path, sp_ = "transformer__" + path, sp_["transformer"]
+                    new_params = {path: op["sp"]}
+                    res.probe("period_changed_and_refitted")
                 base = _base(spec)
-                if both("set_params+fit", lambda tr, yy: tr.set_params(passthrough=new_flag).fit(
+                if both("set_params+fit", lambda tr, yy: tr.set_params(**new_params).fit(
                         yy.iloc[:n_fit])) is None:
                     break
-                seasonal_ref = None
                 fresh = build(spec).fit(y.iloc[:n_fit])
                 zz = y.iloc[2:2 + max(4, min(10, n_fit - 2))]
                 try:
@@ -324,11 +388,58 @@ def execute(prop, scen):
                     break
                 res.probe("reconfigured_and_refitted")
                 if not _same(a_, b_):
-                    v("stale_state_after_refit", "after set_params(passthrough=%s) and a second fit the "
+                    v("stale_state_after_refit", "after set_params(%s) and a second fit the "
                       "transformer gives %s, a fresh one with that configuration gives %s" % (
-                          new_flag, C.fmt(a_), C.fmt(b_)))
+                          new_params, C.fmt(a_), C.fmt(b_)), what=what)
                     break
                 fitted, pos, updates_since_fit = True, n_fit, 0
+                if not after_fit():
+                    break
+            elif o == "unpaired":
+                # a transform of one stretch followed by an inverse_transform of ANOTHER stretch
+                # (same first time point, same number of points, other time points), or the other
+                # way round: the second call must answer for the time points it is given, exactly
+                # as a copy of the transformer that never saw the first call
+                if not (kind in INVERTIBLE and _base(spec)["kind"] != "passthrough"
+                        and hasattr(t, "inverse_transform")):
+                    continue
+                ln, stride = op["len"], op["stride"]
+                if op["where"] == "inside":
+                    a = min(op["off"], max(0, n_fit - 1))
+                elif op["where"] == "overlap":
+                    a = max(0, pos - 1 - op["off"] % max(1, ln))
+                else:
+                    a = pos + op["off"]
+                if a + ln * stride > len(y):
+                    continue
+                w1, w2 = y.iloc[a:a + ln], y.iloc[a:a + ln * stride:stride]
+                with peers.paused():
+                    witness = C.pickle_roundtrip(t)
+                first, second = ("transform", "inverse_transform") if op["first"] == "transform" \
+                    else ("inverse_transform", "transform")
+                try:
+                    getattr(t, first)(w1.copy())
+                    got = getattr(t, second)(w2.copy())
+                    with peers.paused():
+                        exp_ = getattr(witness, second)(w2.copy())
+                except Exception as e:  # noqa
+                    v("op_raised", "%s after %s on another stretch raised %s: %s" % (
+                        second, first, type(e).__name__, str(e)[:120]), op="unpaired",
+                      exc=type(e).__name__)
+                    break
+                res.probe("unpaired_calls_checked")
+                if not (hasattr(got, "index") and C.same_index(got.index, w2.index)):
+                    v("index_not_preserved", "%s returned index %s for input index %s (after a %s "
+                      "of the stretch %s)" % (second, list(getattr(got, "index", []))[:6],
+                                              list(w2.index[:6]), first, list(w1.index[:6])),
+                      op="unpaired")
+                    break
+                if not _same(got, exp_):
+                    v("answers_for_other_time_points", "%s of the time points %s gives %s after a %s "
+                      "of the stretch %s, but %s on a copy that did not see that call" % (
+                          second, list(w2.index[:6]), C.fmt(got), first, list(w1.index[:6]),
+                          C.fmt(exp_)), op="unpaired", second=second)
+                    break
             elif o == "pickle":
                 with peers.paused():
                     t = C.pickle_roundtrip(t)
